@@ -224,7 +224,7 @@ CHECKS = {
         "assumptions": TRUST,
         "units": [
             unit("sweep", "^TestC07Sweep$", 0, 0, shards=(8, 16)),
-            unit("grammar", "^TestC07$", 30, 1200, timeout=(900, 3300)),
+            unit("grammar", "^TestC07$", 30, 500, timeout=(900, 3300)),
         ],
     },
     "C08": {
